@@ -233,6 +233,78 @@ def job(j):
     return kind, rec
 
 
+def later_and_nested(out):
+    """the charset is the file's charset AT THE TIME of the call (mid.charset may be changed between construction, load and save), and calls
+    may nest (a load made while a save is under way, through whatever hook): each uses its own charset and gives the outer one back"""
+    import mido
+    n = 0
+    texts = ['d\u00e9j\u00e0', 'Gr\u00fc\u00dfe', 'caf\u00e9 \u00e5']
+    pairs = [('latin1', 'utf-8'), ('utf-8', 'latin1'), ('latin1', 'utf-16'), ('cp1252', 'utf-8'), ('utf-8', 'cp437')]
+
+    def payload_ok(bs, text, cs):
+        return text.encode(cs) in bytes(bs)
+    for first, second in pairs:
+        for text in texts:
+            n += 1
+            try:
+                mf = mido.MidiFile(type=1, charset=first)
+                mf.tracks.append(mido.MidiTrack([mido.MetaMessage('track_name', name=text), mido.MetaMessage('text', text=text, time=3)]))
+                b1 = io.BytesIO(); mf.save(file=b1)
+                mf.charset = second                         # changed after construction (and after a save)
+                b2 = io.BytesIO(); mf.save(file=b2)
+                if not payload_ok(b1.getvalue(), text, first) or not payload_ok(b2.getvalue(), text, second):
+                    out.failures.append(('charset-at-call-time', 'a file made with charset %s, saved, set to charset %s and saved again: the second file does not hold %r encoded in %s'
+                                         % (first, second, text, second), {'component': 'later-and-nested', 'charsets': [first, second], 'text': text}))
+                    continue
+                back = mido.MidiFile(file=io.BytesIO(b2.getvalue()), charset=second)
+                if back.tracks[0][0].name != text:
+                    out.failures.append(('charset-at-call-time', 'the file saved after the change to %s does not load back under %s' % (second, second), {'component': 'later-and-nested'}))
+                lf = mido.MidiFile(file=io.BytesIO(b1.getvalue()), charset=first)
+                lf.charset = second                         # a loaded file re-saved under another charset
+                b3 = io.BytesIO(); lf.save(file=b3)
+                if not payload_ok(b3.getvalue(), text, second):
+                    out.failures.append(('charset-at-call-time', 'a file loaded under %s, set to %s and saved does not hold %r encoded in %s' % (first, second, text, second),
+                                         {'component': 'later-and-nested', 'charsets': [first, second], 'text': text}))
+            except Exception as e:  # noqa: BLE001
+                out.failures.append(('charset-at-call-time-raises:' + type(e).__name__, 'changing the charset of a file between calls (%s -> %s, %r) raised %r' % (first, second, text, e),
+                                     {'component': 'later-and-nested'}))
+            if not elsewhere_ok():
+                reset_charset()
+                out.failures.append(('leak-after-save', 'charset leaked after saving one file under %s and then %s' % (first, second), {'component': 'later-and-nested'}))
+    # nesting: a track whose iteration (which save performs) loads another file under another charset
+    for outer, inner in pairs + [(b, a) for a, b in pairs]:
+        for text in texts[:2]:
+            n += 1
+            try:
+                innerf = mido.MidiFile(type=1, charset=inner)
+                innerf.tracks.append(mido.MidiTrack([mido.MetaMessage('text', text=text)]))
+                ib = io.BytesIO(); innerf.save(file=ib)
+                seen = {}
+
+                class Hooked(mido.MidiTrack):
+                    def __iter__(self):
+                        if 'text' not in seen:
+                            seen['text'] = mido.MidiFile(file=io.BytesIO(ib.getvalue()), charset=inner).tracks[0][0].text
+                            sb = io.BytesIO(); innerf.save(file=sb); seen['bytes'] = sb.getvalue()
+                        return mido.MidiTrack.__iter__(self)
+                of = mido.MidiFile(type=1, charset=outer)
+                of.tracks.append(Hooked([mido.MetaMessage('text', text=text), mido.MetaMessage('marker', text=text, time=1)]))
+                ob = io.BytesIO(); of.save(file=ob)
+                if seen.get('text') != text or not payload_ok(seen.get('bytes', b''), text, inner):
+                    out.failures.append(('nested-call-charset', 'a load / save under %s made while a save under %s was under way read %r and wrote other bytes than %r encoded in %s'
+                                         % (inner, outer, seen.get('text'), text, inner), {'component': 'later-and-nested', 'charsets': [outer, inner], 'text': text}))
+                elif ob.getvalue().count(text.encode(outer)) < 2:
+                    out.failures.append(('nested-call-charset', 'after a nested call under %s the outer save under %s no longer encodes %r in %s' % (inner, outer, text, outer),
+                                         {'component': 'later-and-nested', 'charsets': [outer, inner], 'text': text}))
+            except Exception as e:  # noqa: BLE001
+                out.failures.append(('nested-call-raises:' + type(e).__name__, 'a call under %s nested in a save under %s raised %r' % (inner, outer, e), {'component': 'later-and-nested'}))
+            if not elsewhere_ok():
+                reset_charset()
+                out.failures.append(('leak-after-save', 'charset leaked after nested calls (%s inside %s)' % (inner, outer), {'component': 'later-and-nested'}))
+    out.evaluations += n
+    out.components['charset changed between calls; nested calls (implementation against the statement)'] = {'cases': n}
+
+
 def run(out):
     rng = random.Random(out.seed)
     reps = 1 if out.tier == 'quick' else 40
@@ -260,6 +332,7 @@ def run(out):
             reset_charset()
             out.failures.append(('leak-after-save', 'charset leaked after a save with charset %s' % sc.CHARSETS[cs], {'component': 'model', 'file': str(f)[:200]}))
     out.components['model (latin1/ascii bytes through the SMF model)'] = {'cases': len(cases)}
+    later_and_nested(out)
     out.rule = ('for each of %d charsets (latin1, utf-8, cp1252, shift_jis, utf-16, ascii, cp437, utf-32, koi8-r): files with 1-4 text-carrying meta messages '
                 '(all 8 text types) of texts encodable in it: save, find the encoded text in the bytes, load back; and every place a call can fail: load of the '
                 'file truncated at EVERY byte offset, corrupted bytes, undecodable text, save with a non-integer time in the n-th message, unencodable text; '
